@@ -197,94 +197,100 @@ def run(ctx, res):
     res.rule = ("(zone id, provider, window): quick = 25 named zones x {zoneinfo, pytz} x 2 windows out of "
                 "{1995-2012, 1970-2038, 1985-06-15..1993-02-01, 2009-2011}; thorough = all zone ids x all 4 windows; "
                 "instants = every transition of the source zone in the window -1 s/0/+1 s, interval midpoints, a "
-                "6-hour grid (quick: 10-day grid); non-trivial = the source zone has a transition inside the window")
+                "grid (thorough: 6 h for windows <= 3 y, 1 d <= 10 y, else 5 d; quick: 10 d); non-trivial = the source zone has a transition inside the window")
     known = ctx.known
     M = ctx.model
     step = 21600 if ctx.big else 86400
-    jobs = []
     t_hi = secs(datetime.datetime(2041, 1, 1))
-    for zi, zone in enumerate(zones):
-        cands = pytz_transition_instants(zone)
-        for provider in ("zoneinfo", "pytz"):
-            tzp.use(provider)
-            tz = tzp.timezone(zone)
-            if tz is None:
-                res.dist("zone unknown to " + provider)
-                continue
-            # the truth on the instant axis (both providers), and the search axis of the provider
-            t_lo = secs(datetime.datetime(1969, 12, 1))
-            itab, idflt = tabulate(instant_fn(tz), t_lo, t_hi, step, cands + [c + 1 for c in cands])
-            if provider == "pytz":
-                atab, adflt = itab, idflt
-            else:
-                wc = []
-                for b, o, _d, _n in itab:
-                    wc += [b + o, b + o - 3600, b + o + 3600, b + o - 1800, b + o + 1800, b + o - 7200, b + o + 7200]
-                atab, adflt = tabulate(wall_fn(tz), t_lo, t_hi, step, wc)
-            for first, last in windows_for_zone(ctx, zi, zone):
-                jobs.append(dict(zone=zone, provider=provider, first=first, last=last, tz=tz, itab=itab, idflt=idflt,
-                                 atab=atab, adflt=adflt))
-    tzp.use_default()
-    # ------------------------------------------------------------------ generate + model
-    reqs = []
-    for j in jobs:
-        first_wall = secs(datetime.datetime(j["first"].year, j["first"].month, j["first"].day))
-        last_wall = secs(datetime.datetime(j["last"].year, j["last"].month, j["last"].day))
-        j["first_wall"], j["last_wall"] = first_wall, last_wall
-        if j["provider"] == "pytz":
-            fa = secs(j["tz"].localize(naive(first_wall)).astimezone(UTC).replace(tzinfo=None))
-            la = secs(j["tz"].localize(naive(last_wall)).astimezone(UTC).replace(tzinfo=None))
-        else:
-            fa, la = first_wall, last_wall
-        j["first_axis"], j["last_axis"] = fa, la
-        comp, cached = generate(ctx, j["zone"], j["provider"], j["first"], j["last"])
-        j["comp"] = comp
-        j["obs"] = comp_obs(comp)
-        res.dist("generated (%s)" % ("cache" if cached else "fresh"))
-        reqs.append(("tz_from_tzinfo", [j["atab"], j["adflt"], int(j["provider"] == "pytz"), HMAX, 4000, fa, la, last_wall]))
-    outs = M.batch(reqs) if M else [None] * len(jobs)
-    # ------------------------------------------------------------------ oracles
-    reqs2 = []
-    for j, m in zip(jobs, outs):
-        inp = {"zone": j["zone"], "provider": j["provider"], "window": [str(j["first"]), str(j["last"])]}
-        j["inp"] = inp
-        if m is not None:
-            res.corr("from_tzinfo (%s)" % j["provider"], inp, j["obs"], m)
-        why = wellformed(j["comp"], j["first_wall"], j["last_wall"])
-        if why:
-            res.fail("C13 well-formedness: " + why, inp, observed=j["comp"].to_ical().decode()[:600])
-        # instants of the window on the instant axis
-        fi = first_instant(j)
-        li = last_instant(j)
-        j["fi"], j["li"] = fi, li
-        inside = [r for r in j["itab"] if fi < r[0] < li]
-        ts = set()
-        for r in inside:
-            ts |= {r[0] - 1, r[0], r[0] + 1}
-        bps = [fi] + [r[0] for r in inside] + [li]
-        for a, b in zip(bps, bps[1:]):
-            ts.add((a + b) // 2)
-        g = 21600 if ctx.big else 864000
-        ts |= set(range(fi, li, g))
-        ts = sorted(t for t in ts if fi <= t < li)
-        j["ts"] = ts
-        j["inside"] = inside
-        res.count((j["zone"], j["provider"], str(j["first"]), str(j["last"])), nontrivial=bool(inside))
-        vt = [[int(not o[0]), sorted(set([o[4]] + o[5])), o[1], o[2], [o[3]], "x"] for o in j["obs"]]
-        j["vtz"] = vt
-        reqs2.append(("tz_rfc_offset", [vt, ts]))
-        reqs2.append(("tz_guard", vt))
-    outs2 = M.batch(reqs2) if M else None
     tally = {}
-    for ji, j in enumerate(jobs):
-        if outs2 is None:
-            break
-        rfc = outs2[2 * ji]
-        guard = outs2[2 * ji + 1]
-        classify(ctx, res, j, rfc, guard, known, tally)
+    idem_jobs = []
+    CH = 16
+    for c0 in range(0, len(zones), CH):
+        jobs = []
+        for zi, zone in list(enumerate(zones))[c0:c0 + CH]:
+            cands = pytz_transition_instants(zone)
+            for provider in ("zoneinfo", "pytz"):
+                tzp.use(provider)
+                tz = tzp.timezone(zone)
+                if tz is None:
+                    res.dist("zone unknown to " + provider)
+                    continue
+                # the truth on the instant axis (both providers), and the search axis of the provider
+                t_lo = secs(datetime.datetime(1969, 12, 1))
+                itab, idflt = tabulate(instant_fn(tz), t_lo, t_hi, step, cands + [c + 1 for c in cands])
+                if provider == "pytz":
+                    atab, adflt = itab, idflt
+                else:
+                    wc = []
+                    for b, o, _d, _n in itab:
+                        wc += [b + o, b + o - 3600, b + o + 3600, b + o - 1800, b + o + 1800, b + o - 7200, b + o + 7200]
+                    atab, adflt = tabulate(wall_fn(tz), t_lo, t_hi, step, wc)
+                for first, last in windows_for_zone(ctx, zi, zone):
+                    jobs.append(dict(zone=zone, provider=provider, first=first, last=last, tz=tz, itab=itab, idflt=idflt,
+                                     atab=atab, adflt=adflt))
+        tzp.use_default()
+        # ------------------------------------------------------------------ generate + model
+        reqs = []
+        for j in jobs:
+            first_wall = secs(datetime.datetime(j["first"].year, j["first"].month, j["first"].day))
+            last_wall = secs(datetime.datetime(j["last"].year, j["last"].month, j["last"].day))
+            j["first_wall"], j["last_wall"] = first_wall, last_wall
+            if j["provider"] == "pytz":
+                fa = secs(j["tz"].localize(naive(first_wall)).astimezone(UTC).replace(tzinfo=None))
+                la = secs(j["tz"].localize(naive(last_wall)).astimezone(UTC).replace(tzinfo=None))
+            else:
+                fa, la = first_wall, last_wall
+            j["first_axis"], j["last_axis"] = fa, la
+            comp, cached = generate(ctx, j["zone"], j["provider"], j["first"], j["last"])
+            j["comp"] = comp
+            j["obs"] = comp_obs(comp)
+            res.dist("generated (%s)" % ("cache" if cached else "fresh"))
+            reqs.append(("tz_from_tzinfo", [j["atab"], j["adflt"], int(j["provider"] == "pytz"), HMAX, 4000, fa, la, last_wall]))
+        outs = M.batch(reqs) if M else [None] * len(jobs)
+        # ------------------------------------------------------------------ oracles
+        reqs2 = []
+        for j, m in zip(jobs, outs):
+            inp = {"zone": j["zone"], "provider": j["provider"], "window": [str(j["first"]), str(j["last"])]}
+            j["inp"] = inp
+            if m is not None:
+                res.corr("from_tzinfo (%s)" % j["provider"], inp, j["obs"], m)
+            why = wellformed(j["comp"], j["first_wall"], j["last_wall"])
+            if why:
+                res.fail("C13 well-formedness: " + why, inp, observed=j["comp"].to_ical().decode()[:600])
+            # instants of the window on the instant axis
+            fi = first_instant(j)
+            li = last_instant(j)
+            j["fi"], j["li"] = fi, li
+            inside = [r for r in j["itab"] if fi < r[0] < li]
+            ts = set()
+            for r in inside:
+                ts |= {r[0] - 1, r[0], r[0] + 1}
+            bps = [fi] + [r[0] for r in inside] + [li]
+            for a, b in zip(bps, bps[1:]):
+                ts.add((a + b) // 2)
+            days = (j["last"] - j["first"]).days
+            g = (21600 if days <= 1100 else 86400 if days <= 3700 else 432000) if ctx.big else 864000
+            ts |= set(range(fi, li, g))
+            ts = sorted(t for t in ts if fi <= t < li)
+            j["ts"] = ts
+            j["inside"] = inside
+            res.count((j["zone"], j["provider"], str(j["first"]), str(j["last"])), nontrivial=bool(inside))
+            vt = [[int(not o[0]), sorted(set([o[4]] + o[5])), o[1], o[2], [o[3]], "x"] for o in j["obs"]]
+            j["vtz"] = vt
+            reqs2.append(("tz_rfc_offset", [vt, ts]))
+            reqs2.append(("tz_guard", vt))
+        outs2 = M.batch(reqs2) if M else None
+        for ji, j in enumerate(jobs):
+            if outs2 is None:
+                break
+            rfc = outs2[2 * ji]
+            guard = outs2[2 * ji + 1]
+            classify(ctx, res, j, rfc, guard, known, tally)
+
+        idem_jobs += [dict(j, ts=None, itab=None, atab=None) for j in jobs if (j["last"] - j["first"]).days <= 800]
     res.extra["failure_classes"] = {k: v for k, v in sorted(tally.items())}
     res.notes.append("failing (zone, provider, window, cause) classes: " + json.dumps(res.extra["failure_classes"]))
-    idempotence(ctx, res, jobs, known)
+    idempotence(ctx, res, idem_jobs, known)
 
 
 def true_at(j, t):
@@ -400,7 +406,7 @@ def idempotence(ctx, res, jobs, known):
     for j in jobs:
         if (j["last"] - j["first"]).days > 800:
             continue
-        if not ctx.big and n >= 12:
+        if n >= (160 if ctx.big else 12):
             break
         n += 1
         tzp.use(j["provider"])
